@@ -38,6 +38,36 @@ func storeMethod(P *core.Program, typ, m string) *ssa.Function {
 	return P.MustFunc(core.PkgGcsemu, "(*"+typ+")."+m)
 }
 
+// storeScope: a store method together with the helpers it is split into (other
+// Store-interface methods of the same store are separate roots and not entered).
+func storeScope(P *core.Program, fn *ssa.Function) []*ssa.Function {
+	return P.Scope(fn, func(f *ssa.Function) bool {
+		if f.Pkg == nil || f.Pkg.Pkg.Path() != core.PkgGcsemu {
+			return true
+		}
+		if f.Signature.Recv() != nil && f.Object() != nil && f.Object().Exported() && core.NamedOf(f.Signature.Recv().Type()) == core.NamedOf(fn.Signature.Recv().Type()) {
+			return true // another method of the Store interface
+		}
+		return false
+	})
+}
+
+func storesToObjFieldIn(fns []*ssa.Function, field string) []*ssa.Store {
+	var out []*ssa.Store
+	for _, f := range fns {
+		out = append(out, storesToObjField(f, field)...)
+	}
+	return out
+}
+
+func persistPointsIn(fns []*ssa.Function) []ssa.Instruction {
+	var out []ssa.Instruction
+	for _, f := range fns {
+		out = append(out, persistPoints(f)...)
+	}
+	return out
+}
+
 // storesToParamField: stores in fn (not transitive) to field `field` of the object parameter.
 func storesToObjField(fn *ssa.Function, field string) []*ssa.Store {
 	var out []*ssa.Store
@@ -92,37 +122,55 @@ func R22() Rule {
 			// ---- Add: Metageneration = 1 before the record is persisted, not overwritten afterwards
 			add := storeMethod(P, s, "Add")
 			c.Fn(core.FuncName(add))
-			pp := persistPoints(add)
-			sts := storesToObjField(add, "Metageneration")
+			addScope := storeScope(P, add)
+			addSet := setOf(addScope)
+			pp := persistPointsIn(addScope)
+			sts := storesToObjFieldIn(addScope, "Metageneration")
 			ok := len(pp) > 0 && len(sts) > 0
 			why := "Add never assigns Metageneration"
 			for _, st := range sts {
 				if k, isK := core.ConstInt(st.Val); !isK || k != 1 {
 					ok, why = false, "Add assigns something other than 1 to Metageneration"
 				}
-				for _, p := range pp {
-					if !core.InstrDominates(st, p) {
-						ok, why = false, "the record is persisted on a path that did not set Metageneration = 1"
+			}
+			for _, p := range pp {
+				dominated := false
+				for _, st := range sts {
+					if P.InterDominates(add, st, p, addSet) {
+						dominated = true
 					}
+				}
+				if !dominated {
+					ok, why = false, "the record is persisted on a path that did not set Metageneration = 1"
 				}
 			}
 			c.Check(ok, "R22", s+".Add/Metageneration-is-1", add.Pos(), "Metageneration = 1 is assigned by the store before the record is persisted (a caller value cannot survive)", why+": a content write does not reset metageneration to 1")
 			// ---- UpdateMeta: stores the metagen parameter
 			um := storeMethod(P, s, "UpdateMeta")
 			c.Fn(core.FuncName(um))
-			pp = persistPoints(um)
-			sts = storesToObjField(um, "Metageneration")
+			umScope := storeScope(P, um)
+			umSet := setOf(umScope)
+			pp = persistPointsIn(umScope)
+			sts = storesToObjFieldIn(umScope, "Metageneration")
 			ok = len(pp) > 0 && len(sts) > 0
 			why = "UpdateMeta never assigns Metageneration"
 			for _, st := range sts {
-				p, isP := core.Resolve(st.Val).(*ssa.Parameter)
-				if !isP || p.Name() != "metagen" && !isIntType(p.Type()) {
+				if !P.AllOrigins(st.Val, umSet, func(v ssa.Value) bool {
+					p, isP := v.(*ssa.Parameter)
+					return isP && p.Parent() == um && isIntType(p.Type())
+				}) {
 					ok, why = false, "UpdateMeta does not store its metagen parameter"
 				}
-				for _, pt := range pp {
-					if !core.InstrDominates(st, pt) {
-						ok, why = false, "metadata is persisted on a path that did not set the new metageneration"
+			}
+			for _, pt := range pp {
+				dominated := false
+				for _, st := range sts {
+					if P.InterDominates(um, st, pt, umSet) {
+						dominated = true
 					}
+				}
+				if !dominated {
+					ok, why = false, "metadata is persisted on a path that did not set the new metageneration"
 				}
 			}
 			c.Check(ok, "R22", s+".UpdateMeta/stores-metagen-parameter", um.Pos(), "the metagen parameter is assigned to Metageneration before the record is persisted", why)
@@ -200,22 +248,26 @@ func R22() Rule {
 			}
 			del := storeMethod(P, s, "Delete")
 			okNE := false
-			for _, r := range returnsIn(del) {
-				for _, v := range returnValues(r.Results[0]) {
-					if ld, isLd := core.Strip(v).(*ssa.UnOp); isLd {
-						if g, isG := ld.X.(*ssa.Global); isG && g.Pkg.Pkg.Path() == "os" && g.Name() == "ErrNotExist" {
-							okNE = true
+			// Delete, a helper it is split into, or a closure it runs yields os.ErrNotExist
+			for _, f := range storeScope(P, del) {
+				for _, r := range returnsIn(f) {
+					if len(r.Results) == 0 {
+						continue
+					}
+					for _, v := range returnValues(r.Results[len(r.Results)-1]) {
+						if ld, isLd := core.Strip(v).(*ssa.UnOp); isLd {
+							if g, isG := ld.X.(*ssa.Global); isG && g.Pkg.Pkg.Path() == "os" && g.Name() == "ErrNotExist" {
+								okNE = true
+							}
 						}
 					}
 				}
-			}
-			if s == "filestore" {
-				// also accepted: returning the error of a closure that yields os.ErrNotExist
-				for _, f := range core.Family(del) {
-					for _, r := range returnsIn(f) {
-						for _, v := range returnValues(r.Results[len(r.Results)-1]) {
-							if ld, isLd := core.Strip(v).(*ssa.UnOp); isLd {
-								if g, isG := ld.X.(*ssa.Global); isG && g.Name() == "ErrNotExist" {
+				// … or assigns it to the variable it returns
+				for _, b := range f.Blocks {
+					for _, in := range b.Instrs {
+						if st, isSt := in.(*ssa.Store); isSt {
+							if ld, isLd := core.Strip(st.Val).(*ssa.UnOp); isLd {
+								if g, isG := ld.X.(*ssa.Global); isG && g.Pkg.Pkg.Path() == "os" && g.Name() == "ErrNotExist" && types.Identical(st.Val.Type(), types.Universe.Lookup("error").Type()) {
 									okNE = true
 								}
 							}
@@ -229,11 +281,13 @@ func R22() Rule {
 		{
 			add := storeMethod(P, "memstore", "Add")
 			ok := false
-			for _, st := range storesToObjField(add, "Generation") {
+			addScope := storeScope(P, add)
+			addSet := setOf(addScope)
+			for _, st := range storesToObjFieldIn(addScope, "Generation") {
 				if call, isCall := core.Resolve(st.Val).(*ssa.Call); isCall && call.Call.StaticCallee() != nil && call.Call.StaticCallee().Name() == "UnixNano" {
 					ok = true
-					for _, p := range persistPoints(add) {
-						if !core.InstrDominates(st, p) {
+					for _, p := range persistPointsIn(addScope) {
+						if !P.InterDominates(add, st, p, addSet) {
 							ok = false
 						}
 					}
@@ -242,7 +296,7 @@ func R22() Rule {
 			c.Check(ok, "R22", "memstore.Add/Generation-assigned-by-store", add.Pos(), "Generation is taken from the clock by the store before the record is inserted", "memstore.Add does not assign a fresh generation: the caller's value (or the old one) survives a content write")
 			rm := storeMethod(P, "filestore", "ReadMeta")
 			ok = false
-			for _, st := range storesToObjField(rm, "Generation") {
+			for _, st := range storesToObjFieldIn(storeScope(P, rm), "Generation") {
 				if call, isCall := core.Resolve(st.Val).(*ssa.Call); isCall && call.Call.StaticCallee() != nil && call.Call.StaticCallee().Name() == "UnixNano" {
 					ok = true
 				}
@@ -254,28 +308,36 @@ func R22() Rule {
 			um := storeMethod(P, "filestore", "UpdateMeta")
 			okOnly := true
 			n := 0
-			for _, ci := range core.AllCalls(um) {
-				if ci.Static != nil && ci.Static.Pkg != nil && fsMutators[ci.Static.Pkg.Pkg.Path()+"."+ci.Static.Name()] {
-					n++
-					if !(ci.IsFunc("os", "WriteFile") && pathFrom(ci.Common.Args[0], "metaFilename")) {
-						okOnly = false
+			for _, f := range storeScope(P, um) {
+				for _, ci := range core.AllCalls(f) {
+					if ci.Static != nil && ci.Static.Pkg != nil && fsMutators[ci.Static.Pkg.Pkg.Path()+"."+ci.Static.Name()] {
+						n++
+						if !(ci.IsFunc("os", "WriteFile") && pathFrom(ci.Common.Args[0], "metaFilename")) {
+							okOnly = false
+						}
 					}
 				}
 			}
 			c.Check(okOnly && n == 1, "R22", "filestore.UpdateMeta/writes-only-the-sidecar", um.Pos(), "the only file written is metaFilename(...)", "filestore.UpdateMeta writes something other than the metadata sidecar: a patch can change content, size or generation (mtime)")
 			add := storeMethod(P, "filestore", "Add")
 			var content, mtime, meta ssa.Instruction
-			for _, ci := range core.AllCalls(add) {
-				switch {
-				case ci.IsFunc("os", "WriteFile") && pathFrom(ci.Common.Args[0], "(*filestore).filename"):
-					content = ci.Instr
-				case ci.IsFunc("os", "WriteFile") && pathFrom(ci.Common.Args[0], "metaFilename"):
-					meta = ci.Instr
-				case ci.IsFunc("os", "Chtimes"):
-					mtime = ci.Instr
+			addScope := storeScope(P, add)
+			addSet := setOf(addScope)
+			for _, f := range addScope {
+				for _, ci := range core.AllCalls(f) {
+					switch {
+					case ci.IsFunc("os", "WriteFile") && pathFrom(ci.Common.Args[0], "metaFilename"):
+						meta = ci.Instr
+					case ci.IsFunc("os", "WriteFile"):
+						if P.AllOrigins(ci.Common.Args[0], addSet, func(v ssa.Value) bool { return pathFrom(v, "(*filestore).filename") }) {
+							content = ci.Instr
+						}
+					case ci.IsFunc("os", "Chtimes"):
+						mtime = ci.Instr
+					}
 				}
 			}
-			okAdd := content != nil && meta != nil && mtime != nil && core.InstrDominates(content, mtime) && core.InstrDominates(mtime, meta)
+			okAdd := content != nil && meta != nil && mtime != nil && P.InterDominates(add, content, mtime, addSet) && P.InterDominates(add, mtime, meta, addSet)
 			c.Check(okAdd, "R22", "filestore.Add/content-mtime-sidecar", add.Pos(), "writes the content file, forces a fresh mtime (= generation), then writes the sidecar", "filestore.Add does not write content, refresh the mtime and write the sidecar in that order: the object is incomplete or its generation does not change on overwrite")
 			del := storeMethod(P, "filestore", "Delete")
 			rmContent, rmMeta := false, false
@@ -294,14 +356,11 @@ func R22() Rule {
 			// ReadMeta tolerates a missing sidecar
 			rm := storeMethod(P, "filestore", "ReadMeta")
 			okTol := false
-			for _, ci := range core.AllCalls(rm) {
-				if !ci.IsFunc("os", "ReadFile") {
-					continue
-				}
+			for _, ci := range core.CallsIn(storeScope(P, rm), func(ci *core.CallInfo) bool { return ci.IsFunc("os", "ReadFile") }) {
 				call := ci.Instr.(*ssa.Call)
 				// every error return that is dominated by `readErr != nil` must also be dominated by `!os.IsNotExist(readErr)`
 				okTol = true
-				for _, r := range returnsIn(rm) {
+				for _, r := range returnsIn(call.Parent()) {
 					ie, _ := isErrorReturn(r)
 					if !ie {
 						continue
@@ -521,7 +580,7 @@ func R25() Rule {
 							nPanic++
 							k++
 							construct := fmt.Sprintf("panic/%s#%d", core.FuncName(fn), k)
-							if why, ok := panicTable[root]; ok {
+							if why, ok := tableOrHelperOf(P, core.Root(fn), panicTable); ok {
 								c.Ok("R25", construct, x.Pos(), false, "tabled: %s", why)
 							} else {
 								c.Bad("R25", construct, x.Pos(), "explicit panic in %s, which is not in the table of reasoned panics: if a request can reach it, it kills the gRPC process / the HTTP connection", root)
